@@ -14,7 +14,7 @@ RULE = ("cases = trial kind x norb x (n_up,n_dn) x seed, Hamiltonian = random h0
         "UHF/GHF/NOCI/multi-Slater/UCISD/GCISD on unrestricted walkers), 1-3 symmetric Cholesky matrices, intermediates built "
         "through ham.build_measurement_intermediates; non-trivial = |<psi|phi>| >= 0.05 |psi||phi| and Green's-function "
         "denominator cond <= 1e4 (walkers are redrawn up to 30 times to satisfy it, else skipped and counted)")
-MIN_NONTRIVIAL = {"quick": 120, "thorough": 1200}
+MIN_NONTRIVIAL = {"quick": 80, "thorough": 600}
 TIMEOUT = {"quick": 1800, "thorough": 9000}
 ASSUMPTIONS = [
     "real trial parameters, complex walkers, symmetric h1 and Cholesky matrices",
